@@ -97,10 +97,9 @@ Definition max_uint64 : Z := 18446744073709551615.
 Definition is_int (m e : Z) : bool := if 0 <=? e then true else (m mod 2 ^ (- e) =? 0).
 Definition int_val (m e : Z) : Z := if 0 <=? e then m * 2 ^ e else m / 2 ^ (- e).
 
-(* big.Float.Int64: "(math.MinInt64, Above) for x < MinInt64, (math.MaxInt64, Below) for x > MaxInt64" *)
-Definition clamp64 (z : Z) : Z :=
-  if z <? min_int64 then min_int64 else if max_int64 <? z then max_int64 else z.
-Definition out_of_int64 (z : Z) : bool := (z <? min_int64) || (max_int64 <? z).
+(* big.Float.Int64 / Uint64 of an integer: the accuracy is Exact iff the value is in the range
+   (otherwise the clamped bound is returned with Above / Below) *)
+Definition z_in_range (lo hi z : Z) : bool := (lo <=? z) && (z <=? hi).
 
 (* big.Float value *)
 Inductive bigf := BInf (neg : bool) | BFin (m e : Z).
@@ -287,20 +286,26 @@ Inductive cres :=
 | CPanic                      (* big.NewFloat(NaN) *)
 | COut.                       (* string outside the modelled range *)
 
-(* bigFloat.IsInt() ; numericValue, _ := bigFloat.Int64()  -- the accuracy is dropped *)
-Definition int_of_bigf (b : bigf) : option Z :=
+(* int64:  !IsInt() => error ; numericValue, accuracy := Int64() ; accuracy != Exact => error
+   (as repaired by fd0d452; before, the accuracy was dropped and the clamped bound returned) *)
+Definition conv_int_bigf (b : bigf) : cres :=
   match b with
-  | BInf _ => None
-  | BFin m e => if is_int m e then Some (clamp64 (int_val m e)) else None
+  | BInf _ => CErr
+  | BFin m e =>
+      if is_int m e then
+        let z := int_val m e in if z_in_range min_int64 max_int64 z then COk (VInt z) else CErr
+      else CErr
   end.
 
-Definition conv_int_bigf (b : bigf) : cres :=
-  match int_of_bigf b with Some z => COk (VInt z) | None => CErr end.
-
+(* uint64: !IsInt() => error ; Sign() < 0 => error ; Uint64() accuracy != Exact => error *)
 Definition conv_uint_bigf (b : bigf) : cres :=
-  match int_of_bigf b with
-  | Some z => if z <? 0 then CErr else COk (VUint z)
-  | None => CErr
+  match b with
+  | BInf _ => CErr
+  | BFin m e =>
+      if is_int m e then
+        if m <? 0 then CErr
+        else let z := int_val m e in if z_in_range 0 max_uint64 z then COk (VUint z) else CErr
+      else CErr
   end.
 
 Definition conv_double_bigf (b : bigf) : cres :=
@@ -421,18 +426,6 @@ Fixpoint spec_convert (t : ptype) (v : jval) : cres :=
   end.
 
 (* --- finding triggers, computed by the model ---------------------------------------------- *)
-
-(* the Int64() result was clamped (F8) *)
-Definition clamped_bigf (b : bigf) : bool :=
-  match b with BFin m e => is_int m e && out_of_int64 (int_val m e) | BInf _ => false end.
-
-(* an in-range uint64 above MaxInt64 is clamped as well *)
-Definition num_clamped (v : jval) : bool :=
-  match v with
-  | JNum (FFin m e) => clamped_bigf (BFin m e)
-  | JStr s => match parse_bigf s with POk b _ => clamped_bigf b | _ => false end
-  | _ => false
-  end.
 
 (* the decimal string is not exactly representable in the 64 bits ParseFloat keeps *)
 Definition num_inexact (v : jval) : bool :=
